@@ -289,6 +289,8 @@ def gen_to_case(rng):
     v = U.gen_value(rng) if k < 0.75 else U.gen_value(rng, nonzero=True)    # a zero reading with an uncertainty is ordinary
     if rng.random() < 0.08:
         v = 0.0
+    if not (U.distinct_ids(lu) and U.distinct_ids(tu)):
+        return gen_to_case(rng)
     c = {"op": "to", "lv": v, "lu": lu, "tu": tu, "le": U.gen_err(rng, v, p=0.85), "mode": "dict"}
     # how the target is handed over: BaseUnits / dict / text / a reference Quantity (magnitude != 1) / Unit().x
     f = rng.random()
